@@ -32,7 +32,7 @@ def truth(cond, x):
 
 class C05(Prop):
     id = 'C05'
-    quick_runs = 2000
+    quick_runs = 3500
     thorough_runs = 50000
     chunk = 16
     rule = ('one case = one generated world with 1-2 tanks, pumps/CV pipes/valves and 1-6 simple conditional controls (IF TANK level|head '
